@@ -280,8 +280,7 @@ def run_job(job, method, n, order, xk, stepmode, cplx):
         o2 = cm.poly_deriv_at(coefs2, n, xs[0])
         term = _parts(np.asarray(T2['der'])[0, 0], cplx)[0][1]
         ot = _parts(o2, cplx)[0][1]
-        t0 = sn.ratval(tau[0][0] * 4)
-        job.twin('degree D+1 breaks the first row', box2 + [z3.Or(term - ot > t0, ot - term > t0)])
+        job.twin('degree D+1 breaks the first row', box2 + [term - ot != 0])
     _validate(job, cfg, T, names, coefs, cplx, D)
 
 
